@@ -5,7 +5,7 @@
    codes through each operation and the prefix property of read results are decided by fault enumeration on the
    implementation (checks/c19.py): every device transfer of every call of the target groups is failed in turn. *)
 From Coq Require Import ZArith List Bool.
-From ADF Require Import CPrelude Generated.Leaf Base.Prog Proofs.ProgP.
+From ADF Require Import CPrelude Generated.Leaf Base.Prog Proofs.ProgP Model.FileIO Proofs.FileIOL Proofs.FileIOP.
 Local Open Scope Z_scope.
 
 Theorem C19_containment_under_any_faults : forall (D : Type) (E : env D) (v : volinfo) (dev_ro : Z), vol_ok v ->
@@ -22,5 +22,16 @@ Proof.
   destruct (_ || _); [intros E; injection E as <-; discriminate|discriminate].
 Qed.
 
+(* on the file handle model (Model/FileIO.v, tied to adf_file.c by the call-level correspondence): WHATEVER set of blocks the device
+   refuses to read (`bad`, arbitrary), a read call on a coherent handle returns m <= min(n, size - pos) bytes and they are exactly
+   the file's true bytes from the position on - fewer bytes, never wrong ones.  (Proved for failing READS of data and extension
+   blocks during adfFileRead / adfFileReadNextBlock; failing writes and the seek paths under faults are decided by enumeration.) *)
+Theorem C19_read_returns_only_true_bytes_partial : forall bs ofs key, 0 < bs -> forall (bad : Z -> bool) s L E ct n,
+  Inv bs ofs key s L E -> Repr bs s L ct -> 0 <= n ->
+  exists s' r m, fio_read bs ofs bad s n = (s', r) /\ 0 <= m <= Z.max 0 (Z.min n (fsize s - pos s)) /\
+    r = firstn (Z.to_nat m) (skipn (Z.to_nat (pos s)) ct) /\ len r = m.
+Proof. exact fio_read_faulty. Qed.
+
 Print Assumptions C19_containment_under_any_faults.
+Print Assumptions C19_read_returns_only_true_bytes_partial.
 Print Assumptions C19_refusal_is_an_error.
